@@ -4,7 +4,7 @@ from __future__ import annotations
 
 from .. import smallworld, gen, probe, spec
 from ..probe import violation
-from .common import scale_leg, call, grow_while_asking, use_as_input_of_derivations
+from .common import growth_sweep, long_lived, scale_leg, call, grow_while_asking, use_as_input_of_derivations
 from .c03 import make_prefix_free
 
 PROP = "C06"
@@ -51,6 +51,8 @@ def run_case(ctx, g, rng):
                         violation(["C06"], "idempotence", "standardize_uri-changes-meaning-on-prefix-free-map", uri=q, standardized=u_, records=[spec.rec_dict(r) for r in recs_], delimiter=d_)
         probe.note_key(f"curie-small-world:chunk{g % 40}", True)
     scale_leg(ctx, rng, rng.choice([":", ":", "/", "::"]), modes=False, g=g)
+    growth_sweep(ctx, rng, rng.choice([":", ":", "/"]), g)
+    long_lived(ctx, rng, rng.choice([":", "/"]), g)
     d = rng.choice(gen.DELIMS)
     recs = gen.records(rng, d, 1, 5)
     if g % 2 == 0:
